@@ -114,6 +114,7 @@ impl HandlerManager {
 
     let initial_ops = handler_box.connection_ready(&interface_for_ready);
     self.handlers.insert(fd, handler_box);
+    crate::verif_event!("fd.add", "\"fd\":{}", fd);
     Ok(initial_ops)
   }
 
@@ -146,6 +147,7 @@ impl HandlerManager {
     );
     let initial_ops = handler.connection_ready(&interface);
     self.handlers.insert(fd, handler);
+    crate::verif_event!("fd.add", "\"fd\":{}", fd);
     info!(
       "HandlerManager: Directly added handler for FD {} via add_handler_directly.",
       fd
@@ -165,6 +167,7 @@ impl HandlerManager {
     // If this FD was a listener, also remove its metadata.
     // It's okay if it wasn't a listener; remove will do nothing.
     self.listener_metadata.remove(&fd);
+    crate::verif_event!("fd.remove", "\"fd\":{},\"present\":{}", fd, self.handlers.contains_key(&fd));
     self.handlers.remove(&fd)
   }
 
